@@ -54,6 +54,17 @@ def AnyHostAllows (E : Rio.Router.Env) (R : List Rio.Router.Route) (q : Rio.Rout
     ¬ ∃ r' ∈ R, Rio.Router.hostBound r' = true ∧ Rio.Router.schemeKey r' = none ∧
       Rio.Router.triggersOk E r' q = true
 
+/-- `sat` for a host-less rule of the any-scheme scope. -/
+theorem sat_hostless (E : Rio.Router.Env) (R : List Rio.Router.Route) (r : Rio.Router.Route)
+    (q : Rio.Router.Req) (hb : Rio.Router.hostBound r = false) (hs : Rio.Router.schemeKey r = none) :
+    Rio.Router.sat E R r q =
+      (Rio.Router.triggersOk E r q && (E.alwaysAnyHost ||
+        !(R.any (fun r' => Rio.Router.hostBound r' && Rio.Router.schemeKey r' == none &&
+          Rio.Router.triggersOk E r' q)))) := by
+  unfold Rio.Router.sat
+  rw [hb, hs]
+  simp
+
 /-- **Through the whole router**: the URL rule is reported for the request iff the two normalised
 keys are equal (and the any-host policy permits) — whatever other rules `R` contains, for every
 configuration, every engine and every other field of the request. -/
@@ -85,11 +96,9 @@ theorem url_rule_matches_iff (P : Parsers) (cfg : Rio.Router.Cfg) (ucfg : Url.Cf
       ∃ r' ∈ R, Rio.Router.hostBound r' = true ∧ Rio.Router.schemeKey r' = none ∧
         Rio.Router.triggersOk E r' q = true := by
     simp only [List.any_eq_true, Bool.and_eq_true, beq_iff_eq, and_assoc]
-  unfold AnyHostAllows Rio.Router.sat
-  rw [htrig]
-  simp only [hmem, true_and, Rio.Router.hostBound, Rio.Router.schemeKey, Bool.false_or,
-    Bool.and_eq_true, Bool.or_eq_true, Bool.not_eq_true', hkey]
-  rw [← hany]
+  unfold AnyHostAllows
+  rw [sat_hostless E R _ q rfl rfl, htrig, ← hany]
+  simp only [hmem, true_and, Bool.and_eq_true, Bool.or_eq_true, Bool.not_eq_true', hkey]
   cases (R.any fun r' => Rio.Router.hostBound r' && Rio.Router.schemeKey r' == none &&
     Rio.Router.triggersOk E r' q) <;> simp
 
